@@ -1,5 +1,7 @@
 import TTV.Model.StreamRouter
 import TTV.Spec.C18
+import TTV.Lemmas.RouterSrc
+import TTV.Generated.RouterSrc
 /-! # C18 — routing picks exactly one destination; route prefixes push and pop inversely
 
 All statements are for **every** history of operations (any number and order of rules, re-registrations,
@@ -1700,5 +1702,39 @@ example : popAll [['a', 'b'], ['0']] { ev1 none none with route := pushAll [['0'
     = some { ev1 none none with route := some ['r', '/', 's'] } := by decide
 example : route (single ['0']) { ev1 none none with route := Deco.prefixRoute ['0'] (some []) }
     = some (0, ev1 none none) := by decide
+
+/-! ## ties to the source (`harness/pystream.py` → `TTV/Generated/RouterSrc.lean`, regenerated on every run) -/
+/-- **the routing decision is the code's**: the model's `route` is the interpretation of the two terms that symbolic
+execution of `StreamResultRouter.status` yields — who gets the event (rule of the first route segment, else rule of the
+test id, else the fallback, else nobody: the call raises) and which `route_code` it is forwarded with (the first segment
+stripped under a consuming rule, `None` when nothing remains, untouched otherwise) -/
+theorem C18_src_status (s : State) (e : Event) :
+    RouterSrc.statusInterp s e Generated.RouterSrc.statusTarget Generated.RouterSrc.statusRoute = route s e := by
+  have h1 : Generated.RouterSrc.statusTarget = RouterSrc.refStatusTarget := by decide
+  have h2 : Generated.RouterSrc.statusRoute = RouterSrc.refStatusRoute := by decide
+  rw [h1, h2]; exact RouterSrc.statusInterp_ref s e
+
+/-- **`startTestRun` / `stopTestRun` are the code's**: `super()` call, the loop over the live `_sinks` list calling exactly
+that method, and only then the assignment of `_in_run` — in this order -/
+theorem C18_src_start_stop (s : State) :
+    step s .start = ((RouterSrc.ctlInterp s Generated.RouterSrc.startTestRun).1, (RouterSrc.ctlInterp s Generated.RouterSrc.startTestRun).2.1,
+        resOf (RouterSrc.ctlInterp s Generated.RouterSrc.startTestRun).2.2)
+    ∧ step s .stop = ((RouterSrc.ctlInterp s Generated.RouterSrc.stopTestRun).1, (RouterSrc.ctlInterp s Generated.RouterSrc.stopTestRun).2.1,
+        resOf (RouterSrc.ctlInterp s Generated.RouterSrc.stopTestRun).2.2) := by
+  have h1 : Generated.RouterSrc.startTestRun = RouterSrc.refStart := by decide
+  have h2 : Generated.RouterSrc.stopTestRun = RouterSrc.refStop := by decide
+  rw [h1, h2]; exact ⟨RouterSrc.ctlInterp_refStart s, RouterSrc.ctlInterp_refStop s⟩
+
+/-- **`add_rule` is the code's**: policy looked up in the registered table (`ValueError` for an unknown one), the policy
+method applied (`TypeError` for a prefix with a `/`, before anything is stored), then — only under
+`do_start_stop_run` — the sink appended to `_sinks` and — only if `_in_run` — started at once -/
+theorem C18_src_add_rule (s : State) (o : Op) (h : RouterSrc.isAdd o = true) :
+    regStep s o =
+      ((RouterSrc.aInterp Generated.RouterSrc.policies o Generated.RouterSrc.addRule { s := s }).s,
+       (RouterSrc.aInterp Generated.RouterSrc.policies o Generated.RouterSrc.addRule { s := s }).started,
+       resOf (RouterSrc.aInterp Generated.RouterSrc.policies o Generated.RouterSrc.addRule { s := s }).err) := by
+  have h1 : Generated.RouterSrc.addRule = RouterSrc.refAddRule := by decide
+  have h2 : Generated.RouterSrc.policies = RouterSrc.refPolicies := by decide
+  rw [h1, h2]; exact RouterSrc.aInterp_ref s o h
 
 end TTV.Props.C18
